@@ -22,7 +22,7 @@ BUILD = build.BUILD
 class Obl:
     def __init__(self, oid, harness, entry, engine, what, tier='quick', mode='bv', unwind=8, params=None, opts=None,
                  timeout=300, cuts=None, solvers=None, validate=True, unwindset=(), cbmc_extra=(), assumes=(), stubs=(),
-                 bounds='', known=(), validate_n=None, expect_reach=True, mem_gb=12, solver=()):
+                 bounds='', known=(), validate_n=None, expect_reach=True, mem_gb=12, solver=(), defines=(), unwind_fn=None):
         self.id = oid
         self.harness = harness        # path relative to /verif/harness
         self.entry = entry
@@ -47,12 +47,21 @@ class Obl:
         self.expect_reach = expect_reach
         self.mem_gb = mem_gb
         self.solver = solver
+        self.defines = tuple(defines)
+        self.unwind_fn = unwind_fn or {}   # {regex on C function name: unwind bound} via --unwindset
+
+    @property
+    def hkey(self):
+        return (self.harness, self.defines)
 
 
 # ---------------------------------------------------------------------------
 # build cache (per check invocation)
 
 def harness_paths(h, tag=''):
+    if isinstance(h, tuple):
+        h, defs = h
+        tag = ''.join('_' + re.sub(r'\W', '_', d) for d in defs)
     base = h.replace('/', '_').replace('.cc', '') + tag
     return {'src': os.path.join(VERIF, 'harness', h), 'll': os.path.join(BUILD, base + '.ll'),
             'c': os.path.join(BUILD, base), 'bin': os.path.join(BUILD, base + '.native'),
@@ -67,10 +76,11 @@ def prepare(harnesses, need_native=True):
 
     def job(h):
         p = harness_paths(h)
+        defs = h[1] if isinstance(h, tuple) else ()
         try:
-            build.compile_ir(p['src'], p['ll'], inc)
+            build.compile_ir(p['src'], p['ll'], inc, defines=defs)
             if need_native:
-                build.compile_native(p['src'], p['bin'], inc)
+                build.compile_native(p['src'], p['bin'], inc, defines=defs)
         except Exception as e:
             errs[h] = str(e)
     with ThreadPoolExecutor(max_workers=8) as ex:
@@ -127,8 +137,8 @@ def trace_known(trace):
 def c_for(obl):
     """generated C for one obligation's entry (own file so cuts/opts can differ)"""
     from . import ir2c
-    p = harness_paths(obl.harness)
-    key = hashlib.md5((obl.entry + repr(sorted(obl.cuts.items()))).encode()).hexdigest()[:8]
+    p = harness_paths(obl.hkey)
+    key = hashlib.md5((obl.entry + repr(sorted(obl.cuts.items())) + repr(sorted(obl.opts.items()))).encode()).hexdigest()[:8]
     cpath = '%s_%s_%s.c' % (p['c'], obl.entry, key)
     code, info = ir2c.translate(p['ll'], [obl.entry], cuts=obl.cuts, opts=obl.opts)
     code += '\n#ifndef __CPROVER__\nint main(int argc, char **argv) { verif_native_init(argv[2]); %s(); verif_native_end(); return 0; }\n#endif\n' % obl.entry
@@ -151,6 +161,14 @@ def run_A(obl, exclude_known=False):
     res['libm_uninterpreted'] = info['libm']
     res['warnings'] = info['warnings']
     defines = ['VERIF_EXCLUDE_KNOWN'] if exclude_known else []
+    if obl.unwind_fn:
+        us = list(obl.unwindset)
+        for lid, fn in cbmc.loops(cpath, obl.entry):
+            for pat, bound in obl.unwind_fn.items():
+                if lid and re.search(pat, lid):
+                    us.append('%s:%d' % (lid, bound))
+                    break
+        obl.unwindset = tuple(us)
     r = cbmc.run(cpath, obl.entry, unwind=obl.unwind, timeout=obl.timeout, unwindset=obl.unwindset, extra=obl.cbmc_extra,
                  defines=defines, mem_gb=obl.mem_gb, solver=obl.solver)
     res['cbmc_time_s'] = round(r['time'], 2)
@@ -197,7 +215,7 @@ def run_B(obl, exclude_known=False):
     from . import irsym, smt
     res = {'id': obl.id, 'engine': 'B (irsym + SMT portfolio, mode %s)' % obl.mode, 'what': obl.what, 'entry': obl.entry}
     t0 = time.time()
-    p = harness_paths(obl.harness)
+    p = harness_paths(obl.hkey)
     try:
         mod, text = load_module(p['ll'])
     except Exception as e:
@@ -344,11 +362,11 @@ def validate_translators(obls, seed, n_default=40):
     for obl in obls:
         if not obl.validate:
             continue
-        key = (obl.harness, obl.entry, obl.engine, repr(sorted(obl.params.items())))
+        key = (obl.hkey, obl.entry, obl.engine, repr(sorted(obl.params.items())))
         if key in seen:
             continue
         seen.add(key)
-        p = harness_paths(obl.harness)
+        p = harness_paths(obl.hkey)
         n = obl.validate_n or n_default
         cbin = None
         if obl.engine == 'A':
@@ -437,17 +455,17 @@ def load_known():
 def check_property(pid, obls, tier, seed, level_note='', assumptions=(), trusted=(), jobs=None):
     t0 = time.time()
     obls = [o for o in obls if tier == 'thorough' or o.tier == 'quick']
-    harnesses = sorted({o.harness for o in obls})
+    harnesses = sorted({o.hkey for o in obls})
     inc, errs, build_t = prepare(harnesses)
     results = []
     violations = []
     known_lines = []
     known = [k for k in load_known() if k.get('property') == pid]
     open_known = {k['id']: k for k in known if k.get('status') == 'open'}
-    ok_obls = [o for o in obls if o.harness not in errs]
+    ok_obls = [o for o in obls if o.hkey not in errs]
     for o in obls:
-        if o.harness in errs:
-            results.append({'id': o.id, 'status': 'inconclusive', 'reason': 'harness does not compile against the working tree: ' + errs[o.harness][-300:].replace('\n', ' '),
+        if o.hkey in errs:
+            results.append({'id': o.id, 'status': 'inconclusive', 'reason': 'harness does not compile against the working tree: ' + errs[o.hkey][-300:].replace('\n', ' '),
                             'what': o.what, 'entry': o.entry, 'time': 0.0})
     jobs = jobs or int(os.environ.get('VERIF_JOBS', '8'))
     if os.environ.get('VERIF_INPROC'):
@@ -465,7 +483,7 @@ def check_property(pid, obls, tier, seed, level_note='', assumptions=(), trusted
         if r['status'] != 'cex':
             continue
         o = by_id[r['id']]
-        p = harness_paths(o.harness)
+        p = harness_paths(o.hkey)
         confirmed = None
         r['replays'] = []
         for i, c in enumerate(r['cex']):
@@ -476,7 +494,8 @@ def check_property(pid, obls, tier, seed, level_note='', assumptions=(), trusted
             tr, err, rp = run_native(p['bin'], o.entry, vals, '%s_%d' % (re.sub(r'\W', '_', o.id), i))
             failed = trace_failed(tr)
             kn = trace_known(tr)
-            r['replays'].append({'cex': c['description'], 'kind': c['kind'], 'reproduced': failed, 'known_regions': sorted(kn), 'trace': (tr or [])[:10]})
+            r['replays'].append({'cex': c['description'], 'kind': c['kind'], 'reproduced': failed, 'known_regions': sorted(kn),
+                                 'failed_labels': re.findall(r'FAILED-OBLIGATION (.*)', err or '')[:4], 'inputs': ['%x' % v for v in vals[:24]]})
             if failed and confirmed is None:
                 dest = os.path.join(replay_dir, '%s-%s.txt' % (pid, re.sub(r'\W', '_', o.id)))
                 shutil.copy(rp, dest)
